@@ -14,6 +14,32 @@ fn main() {
         std::process::exit(2);
     }
     let name = &args[1];
+    if args[2] == "--fuzz" {
+        // developer aid: random inputs through the harness body, natively (not a check)
+        let n: u64 = args.get(3).and_then(|x| x.parse().ok()).unwrap_or(1000);
+        let reg = avro_verif_harness::registry();
+        let Some((_, f)) = reg.iter().find(|(h, _)| h == name) else { eprintln!("unknown harness"); std::process::exit(2) };
+        let f = *f;
+        panic::set_hook(Box::new(|_| {}));
+        let (mut feasible, mut failed) = (0u64, 0u64);
+        for i in 0..n {
+            avro_verif_harness::sym::set_fuzz(0x9E3779B97F4A7C15u64.wrapping_mul(i + 1));
+            match panic::catch_unwind(f) {
+                Ok(()) => feasible += 1,
+                Err(p) => {
+                    if p.downcast_ref::<avro_verif_harness::sym::Infeasible>().is_some() { continue; }
+                    feasible += 1;
+                    failed += 1;
+                    if failed <= 3 {
+                        let msg = p.downcast_ref::<&str>().map(|s| s.to_string()).or_else(|| p.downcast_ref::<String>().cloned()).unwrap_or_default();
+                        println!("FUZZ-FAIL {msg} values={:?}", avro_verif_harness::sym::trace());
+                    }
+                }
+            }
+        }
+        println!("fuzz {name}: {feasible} feasible of {n}, {failed} failed");
+        std::process::exit(if failed > 0 { 1 } else { 0 });
+    }
     let text = std::fs::read_to_string(&args[2]).expect("read values file");
     let json: serde_json::Value = serde_json::from_str(&text).expect("parse values file");
     let vals: Vec<Vec<u8>> = json["values"]
